@@ -19,6 +19,16 @@ CLAIMS = {
    ref="§4 C20",
    note="Trusts go/version.Compare's documented meaning and go/types' FileVersions; does not decide what bounds individual checks pass.",
    technique="SSA value-origin (def-use) analysis + finite abstract evaluation of a comparison-only function"),
+ "C13": dict(
+   text="The nilness merge table is evaluated from the constant literal in the source and all four semilattice laws plus closure are enumerated exhaustively (125 triples) — a complete decision for that clause. For the solvers and the map lattices the check decides the re-enqueue pairing and pointwise-lifting shape that a least fixpoint needs (necessary conditions on every path), not termination or leastness on all graphs.",
+   ref="§4 C13",
+   note="Assumes monotone transfer functions; trusts constant evaluation by go/types. The generic MapLattice laws for arbitrary element lattices are decided only structurally (keys of both operands, element merge on common keys, identity shortcut).",
+   technique="constant-table evaluation from the AST with exhaustive law enumeration + SSA path rules (store ⇒ enqueue on all paths, guard edges)"),
+ "C12": dict(
+   text="Decides that the sort comparator refines the de-duplication key before the build name (key read from descriptor(), chain read from the comparator's AST), that mergeRuns covers every merge strategy and vetoes an 'all' problem only for runs that checked its file and lack it, over the whole runs slice, and that -f binary normalises exactly the fields the merge keys on. Structural necessary conditions; commutativity/idempotence over multisets of runs follow only informally.",
+   ref="§4 C12",
+   note="Comparator idioms recognised: if a.f != b.f { return a.f < b.f } chains and cmp.Compare chains; any other idiom makes the rule report 'undecided' (fails) instead of passing.",
+   technique="AST symbolic extraction of comparator/equality field chains + SSA guard-edge rules"),
 }
 
 NOT_APPLICABLE = {
